@@ -26,7 +26,7 @@ func RocksDBStore.Mutate
 func RocksDBStore.Get
   props C14
   requires s.db != nil && int(table) < len(s.cfHandles)
-  modifies lastGetKey, lastGetCF
+  modifies lastGetKey, lastGetCF, lastGetFound
   ensures isnil(result_1) ==> result_0 != nil && result_0.Key == key
   ensures C14/reads-that-table: lastGetKey == bytes(key) && lastGetCF == s.cfHandles[table]
 
